@@ -3,7 +3,7 @@ EXTENDS Serial
 (* ---------------------------------------------------------------- generator *)
 VARIABLES cfg, done
 Suffixes == {".csv", ".txt", "", ".pq", ".parquet", ".dat", ".PARQUET", ".Pq"}
-Cases == [n : 1..4, lattice : {"d4", "d6", "wide", "int"}, rots : {"rot24", "pi", "rotq", "tiny", "random"},
+Cases == [n : 0..4, lattice : {"d4", "d6", "wide", "int"}, rots : {"rot24", "pi", "rotq", "tiny", "random"},
           feats : {"none", "ints", "mixed", "nulls", "special"}, prec : {-1, 2, 4, 6}, via : {"file", "csv", "parquet", "frame"},
           suffix : Suffixes, layout : {"c", "f"}]     \* layout: memory order of the position array handed to Molecules
 Valid(c) == /\ (c.via = "frame" => c.suffix = "" /\ c.prec = -1)
